@@ -51,6 +51,10 @@ let () =
                     (match o.Reloc.o_rewrite with None -> "-" | Some (x, y) -> string_of_cz x ^ ":" ^ string_of_cz y)
                     (match o.Reloc.o_slot with None -> "-" | Some x -> string_of_cz x))) r.Reloc.rr_outs;
                 print_endline (Buffer.contents b))
+           | ["KNOWN"; abits; base; next; target] ->
+             (* the relative field the assembler emits at once when the base is known at init *)
+             print_endline (match Reloc.known_rel32 (cz_of_string abits) (cz_of_string base) (cz_of_string next) (cz_of_string target) with
+                            | Some w -> string_of_cz w | None -> "none")
            | _ -> print_endline "BAD")
         | [] -> print_endline "BAD"
       with Failure m -> print_endline ("BAD " ^ m) | Invalid_argument m -> print_endline ("BAD " ^ m))
